@@ -490,6 +490,7 @@ def carried : List Group := [.noi, .mfc, .cep, .feat]
 /-- read / write / dependency / kill sets per (phase, operation); mirrors
 `decoder_start_utt` (decoder.c), `acmod_start_utt`, `fe_start`, `fsg_search_start`;
 `decoder_process_*` → `acmod_process_raw` / `acmod_process_full_raw` → `fe_process`, `feat_s2mfc2feat_live`,
+`feat_s2mfc2feat_block_utt` (batch: the first 2·win rows of the live window serve as padding scratch),
 `cmn`/`cmn_live`, `search_module_forward` → `fsg_search_step`, `ptm_mgau_frame_eval`;
 `decoder_end_utt` → `acmod_end_utt`, `fsg_search_finish`; the query functions; `decoder_set_fsg`; `cmn_set_repr`. -/
 def spec : Phase → Op → Spec Group
@@ -505,11 +506,11 @@ def spec : Phase → Op → Spec Group
       [.sel, .lay, .log] [] []
   | _, .processFull =>
     mkSpec [.gconst, .sel, .lay, .log, .cfg, .gram, .fec, .cnt, .beam, .hmm, .hist]
-      [.fec, .scr, .noi, .mfc, .feat, .sen, .cmn, .cnt, .beam, .hmm, .hist]
+      [.fec, .scr, .noi, .mfc, .cep, .feat, .sen, .cmn, .cnt, .beam, .hmm, .hist]
       [.cfg, .gram, .fec, .cnt, .beam, .hmm, .hist] [.sel, .lay, .log] [] []
   | _, .processFullLive =>
     mkSpec ([.gconst, .sel, .lay, .log] ++ streamDeps)
-      [.fec, .scr, .noi, .mfc, .feat, .sen, .cmn, .cnt, .beam, .hmm, .hist] streamDeps [.sel, .lay, .log] [] []
+      [.fec, .scr, .noi, .mfc, .cep, .feat, .sen, .cmn, .cnt, .beam, .hmm, .hist] streamDeps [.sel, .lay, .log] [] []
   | .started, .endUtt =>
     mkSpec ([.gconst, .sel, .lay, .log] ++ streamDeps) streamWrites streamDeps [.sel, .lay, .log] [.hmm] []
   | .batched, .endUtt =>
@@ -527,7 +528,7 @@ def spec : Phase → Op → Spec Group
     mkSpec [.cfg, .gram, .gconst, .hist, .res, .cnt, .feat, .sel, .lay, .log] [.res, .cnt, .sen]
       [.cfg, .gram, .hist, .res, .cnt, .feat] [.sel, .log] [] []
   | _, .setGrammar =>
-    mkSpec [.cfg, .gram, .gconst, .hmm, .hist, .res, .log] [.gram, .beam, .hist] [.cfg] [.log] [.hmm, .res] []
+    mkSpec [.cfg, .gram, .gconst, .hmm, .hist, .res, .log] [.gram, .beam, .hist, .sen] [.cfg] [.log] [.hmm, .res] []
   | _, .setCmn => mkSpec [.cfg, .cmn] [.cmn] [.cfg] [] [] []
   | _, .getCmn => mkSpec [.cmn] [] [] [] [] []
   | _, .getCmnUpdate => mkSpec [.cfg, .cmn] [.cmn] [.cfg, .cmn] [] [] []
